@@ -27,7 +27,13 @@ ApplyBig(s, e) ==
    exp |-> [why |-> IF e.ret = "panic" THEN "panic" ELSE IF e.ret = "none" THEN "missed_hits" ELSE "not_the_maximum",
             nrem |-> 0, overflow |-> FALSE, best |-> e.want_score]]
 
+\* scan_big: iteration to exhaustion on such a sequence: exactly the qualifying positions of the naive rescoring, each once
+ApplyScanBig(s, e) ==
+  [ok |-> e.ret = "ok" /\ e.hits = e.want, st |-> s,
+   exp |-> [why |-> IF e.ret = "panic" THEN "panic" ELSE "hits_differ_from_the_qualifying_positions", nrem |-> Len(e.want), overflow |-> FALSE, best |-> 0]]
+
 Apply(s, e) ==
+  IF e.ev = "scan_big" THEN ApplyScanBig(s, e) ELSE
   IF e.ev = "max_big" THEN ApplyBig(s, e) ELSE
   IF e.ev = "scan_new"
   THEN IF e.ret = "ok"
